@@ -3,6 +3,11 @@ pub open spec fn inter_all(v: Seq<RegLan>, w: Seq<u32>) -> bool {
     word_ok(w) && (forall|i: int| #![trigger wit(i)] 0 <= i < v.len() && wit(i) ==> lang_k(v[i].expr, w))
 }
 
+// w is in none of the first n languages of a
+pub open spec fn none_of(a: Seq<RegLan>, n: int, w: Seq<u32>) -> bool {
+    forall|i: int| #![trigger wit(i)] 0 <= i < n && wit(i) ==> !lang_k(a[i].expr, w)
+}
+
 pub open spec fn union_all(v: Seq<RegLan>, w: Seq<u32>) -> bool {
     exists|i: int| #![trigger wit(i)] 0 <= i < v.len() && wit(i) && lang_k(v[i].expr, w)
 }
